@@ -5,7 +5,10 @@ use std::{
     sync::atomic::{AtomicUsize, Ordering},
 };
 
+#[cfg(not(feature = "circ_verif"))]
 use atomic::Atomic;
+#[cfg(feature = "circ_verif")]
+use crate::verif::HookedAtomic as Atomic;
 use static_assertions::const_assert;
 
 use crate::ebr_impl::{Guard, Tagged};
